@@ -26,6 +26,7 @@ import (
 	"sync/atomic"
 	"time"
 
+	"github.com/atlassian/gostatsd"
 	"github.com/atlassian/gostatsd/pkg/stats"
 	"github.com/atlassian/gostatsd/pkg/statsd"
 
@@ -76,11 +77,11 @@ func (c scriptConn) ReadFrom(b []byte) (int, net.Addr, error) {
 	}
 }
 func (c scriptConn) WriteTo(b []byte, addr net.Addr) (int, error) { return len(b), nil }
-func (c scriptConn) Close() error                                  { c.n.once.Do(func() { close(c.n.closed) }); return nil }
-func (c scriptConn) LocalAddr() net.Addr                           { return scriptLocal }
-func (c scriptConn) SetDeadline(t time.Time) error                 { return nil }
-func (c scriptConn) SetReadDeadline(t time.Time) error             { return nil }
-func (c scriptConn) SetWriteDeadline(t time.Time) error            { return nil }
+func (c scriptConn) Close() error                                 { c.n.once.Do(func() { close(c.n.closed) }); return nil }
+func (c scriptConn) LocalAddr() net.Addr                          { return scriptLocal }
+func (c scriptConn) SetDeadline(t time.Time) error                { return nil }
+func (c scriptConn) SetReadDeadline(t time.Time) error            { return nil }
+func (c scriptConn) SetWriteDeadline(t time.Time) error           { return nil }
 
 func (n *scriptNet) count() int {
 	n.mu.Lock()
@@ -106,6 +107,7 @@ type sentDatagram struct {
 type sentRound struct {
 	dgs    []sentDatagram
 	series *ref.Folded       // expected series, timestamps left 0
+	owner  map[string]int    // series key -> index of the datagram that carries it
 	events map[string]string // title -> "text|tags|source"
 	c      counters
 	bytes  int
@@ -116,7 +118,7 @@ type sentRound struct {
 var lineCounts = []int{1, 1, 2, 3, 5, 8, 20, 60, 200, 600, 3000}
 
 func buildRound(rng *rand.Rand, cfg config, round, n int, ips []string, maxBytes int) *sentRound {
-	s := &sentRound{series: ref.NewFolded(), events: map[string]string{}}
+	s := &sentRound{series: ref.NewFolded(), events: map[string]string{}, owner: map[string]int{}}
 	for k := 0; k < n; k++ {
 		ip := ips[rng.Intn(len(ips))]
 		want := lineCounts[rng.Intn(len(lineCounts))]
@@ -176,8 +178,9 @@ func buildRound(rng *rand.Rand, cfg config, round, n int, ips []string, maxBytes
 			switch {
 			case kn != nil:
 				kn.Tags = strings.Split(tags, ",")
-				for _, se := range expectSeries(kn, cfg, ip, 0) {
+				for key, se := range expectSeries(kn, cfg, ip, 0) {
 					s.series.AddSeries(se)
+					s.owner[key] = k
 				}
 				s.c.metrics++
 			case evTitle != "":
@@ -195,6 +198,44 @@ func buildRound(rng *rand.Rand, cfg config, round, n int, ips []string, maxBytes
 	}
 	return s
 }
+
+// timedCapture is the handler of this variant: it reads the clock the moment a map arrives, which is the upper
+// bound for every timestamp inside it.
+type timedMap struct {
+	mm *gostatsd.MetricMap
+	at int64
+}
+
+type timedCapture struct {
+	mu     sync.Mutex
+	maps   []timedMap
+	events []*gostatsd.Event
+}
+
+func (h *timedCapture) EstimatedTags() int { return 0 }
+func (h *timedCapture) WaitForEvents()     {}
+func (h *timedCapture) DispatchMetricMap(ctx context.Context, mm *gostatsd.MetricMap) {
+	at := time.Now().UnixNano()
+	h.mu.Lock()
+	h.maps = append(h.maps, timedMap{mm, at})
+	h.mu.Unlock()
+}
+func (h *timedCapture) DispatchEvent(ctx context.Context, e *gostatsd.Event) {
+	h.mu.Lock()
+	h.events = append(h.events, e)
+	h.mu.Unlock()
+}
+func (h *timedCapture) take() ([]timedMap, []*gostatsd.Event) {
+	h.mu.Lock()
+	defer h.mu.Unlock()
+	m, e := h.maps, h.events
+	h.maps, h.events = nil, nil
+	return m, e
+}
+
+// idleGap is the real time during which nothing is offered to readers that are all parked in a read: a receive
+// time taken when the reader started waiting is then that much older than the datagram.
+const idleGap = 3 * time.Millisecond
 
 // ---------------------------------------------------------------------------------------------
 // one round
@@ -255,7 +296,7 @@ func receiverRound(r *mon.Run, rng *rand.Rand, su recvSetup, udpIPs []string) (u
 	defer cancel()
 	pSpy, rSpy := &spyStatser{vals: map[string]float64{}}, &spyStatser{vals: map[string]float64{}}
 	pCtx, rCtx := stats.NewContext(base, pSpy), stats.NewContext(base, rSpy)
-	h := &capture{}
+	h := &timedCapture{}
 	datagrams := make(chan []*statsd.Datagram, su.ChanCap) // gostatsd: unbuffered
 	dp := statsd.NewDatagramParser(datagrams, cfg.NS, cfg.IgnoreHost, cfg.EstTags, h, 0, false, quietLogger())
 	for i := 0; i < su.Parsers; i++ {
@@ -283,7 +324,11 @@ func receiverRound(r *mon.Run, rng *rand.Rand, su recvSetup, udpIPs []string) (u
 	go recv.Run(rCtx)
 	go recv.RunMetricsContext(rCtx)
 
-	t0 := time.Now().UnixNano()
+	// lower[k]: the clock read immediately before datagram k is made available to the socket; the receiver stamps a
+	// datagram after its read has returned, so no timestamp of datagram k may be older.
+	lower := make([]int64, len(sent.dgs))
+	gaps := 0
+	afterGap := make([]bool, len(sent.dgs))
 	lost, totalsReached := false, true
 	if su.Mode == "udp" {
 		// Loopback UDP drops what does not fit the socket buffer, and the kernel charges far more than the payload per
@@ -301,7 +346,21 @@ func receiverRound(r *mon.Run, rng *rand.Rand, su recvSetup, udpIPs []string) (u
 		// sizes of the datagrams written and not yet counted by the receiver, oldest first
 		var sizes []int
 		inFlightBytes, acked := 0, uint64(0)
-		for _, d := range sent.dgs {
+		for i, d := range sent.dgs {
+			if rng.Intn(10) == 0 && !lost {
+				// quiet period: everything written so far has been read (the readers are back in, or on their way to, their
+				// next read), then nothing for a while
+				if mon.WaitUntil(watchdog/4, func() bool {
+					return readSpy(rCtx, rSpy) && rSpy.get("receiver.datagrams_received") >= uint64(i)
+				}) {
+					acked, sizes, inFlightBytes = uint64(i), nil, 0
+					time.Sleep(idleGap)
+					afterGap[i] = true
+					gaps++
+				} else {
+					lost = true
+				}
+			}
 			for len(sizes) > 0 && (len(sizes) >= 40 || inFlightBytes+len(d.msg) > 120_000) && !lost {
 				progressed := mon.WaitUntil(watchdog/4, func() bool {
 					return readSpy(rCtx, rSpy) && rSpy.get("receiver.datagrams_received") > acked
@@ -318,6 +377,7 @@ func receiverRound(r *mon.Run, rng *rand.Rand, su recvSetup, udpIPs []string) (u
 			if lost {
 				break
 			}
+			lower[i] = time.Now().UnixNano()
 			if _, err := clients[d.ip].Write(d.msg); err != nil {
 				r.Inconclusive("receiver-udp-write-failed")
 				return true, false
@@ -340,8 +400,17 @@ func receiverRound(r *mon.Run, rng *rand.Rand, su recvSetup, udpIPs []string) (u
 			})
 		}
 	} else {
-		for _, d := range sent.dgs {
+		for i, d := range sent.dgs {
+			if rng.Intn(10) == 0 || i == 0 {
+				// quiet period: every reader is parked in ReadFrom with nothing queued, for a few milliseconds of real time
+				if mon.WaitUntil(watchdog, func() bool { return sn.idle(su.Readers, i) }) {
+					time.Sleep(idleGap)
+					afterGap[i] = true
+					gaps++
+				}
+			}
 			t := time.NewTimer(watchdog)
+			lower[i] = time.Now().UnixNano()
 			select {
 			case sn.feed <- feedItem{msg: d.msg, addr: &net.UDPAddr{IP: net.ParseIP(d.ip), Port: 40000}}:
 				t.Stop()
@@ -377,7 +446,6 @@ func receiverRound(r *mon.Run, rng *rand.Rand, su recvSetup, udpIPs []string) (u
 		r.Inconclusive("receiver-barrier-watchdog")
 		return false, true
 	}
-	t1 := time.Now().UnixNano()
 	if !readSpy(pCtx, pSpy) || !readSpy(rCtx, rSpy) {
 		r.Inconclusive("receiver-counters-not-reported")
 		return false, true
@@ -402,8 +470,44 @@ func receiverRound(r *mon.Run, rng *rand.Rand, su recvSetup, udpIPs []string) (u
 		r.Violation("receiver-datagram-count", fmt.Sprintf("receiver.datagrams_received = %d, %d were sent; %s", gotDg, len(sent.dgs), where), replay)
 	}
 	got := ref.NewFolded()
-	for _, mm := range maps {
-		got.AddMap(ref.FromMap(mm))
+	checked, early, earlyAfterGap, late := 0, 0, 0, 0
+	var firstEarly, firstLate string
+	var worst int64
+	for _, tm := range maps {
+		flat := ref.FromMap(tm.mm)
+		got.AddMap(flat)
+		for key, se := range flat {
+			k, ok := sent.owner[key]
+			if !ok || lower[k] == 0 {
+				continue // not one of ours (reported below) or never sent
+			}
+			checked++
+			if se.Timestamp < lower[k] {
+				early++
+				if afterGap[k] {
+					earlyAfterGap++
+				}
+				if d := lower[k] - se.Timestamp; d > worst {
+					worst = d
+					firstEarly = fmt.Sprintf("series %q of datagram %d (after an idle gap: %v) has timestamp %d, but the datagram was only made available to the socket at %d, %.3f ms later", key, k, afterGap[k], se.Timestamp, lower[k], float64(d)/1e6)
+				}
+			}
+			if se.Timestamp > tm.at {
+				late++
+				if firstLate == "" {
+					firstLate = fmt.Sprintf("series %q of datagram %d has timestamp %d, but its map reached the handler at %d", key, k, se.Timestamp, tm.at)
+				}
+			}
+		}
+	}
+	r.Event("receiver_timestamps_checked", checked)
+	r.Event("receiver_datagrams_after_idle_gap", gaps)
+	if early > 0 {
+		r.Event("receiver_timestamps_early", early)
+		r.Violation("receiver-timestamp-before-datagram-sent", fmt.Sprintf("%d of %d timestamps are older than the moment their datagram was sent (%d of them in datagrams that followed an idle gap of %v; %d such datagrams in this round); worst: %s; %s", early, checked, earlyAfterGap, idleGap, gaps, firstEarly, where), replay)
+	}
+	if late > 0 {
+		r.Violation("receiver-timestamp-after-dispatch", fmt.Sprintf("%d of %d timestamps are newer than the moment their map reached the handler; first: %s; %s", late, checked, firstLate, where), replay)
 	}
 	diff := ref.Diff(got.Series, sent.series.Series, ref.DiffOpts{IgnoreTimestamp: true})
 	if lost {
@@ -421,12 +525,6 @@ func receiverRound(r *mon.Run, rng *rand.Rand, su recvSetup, udpIPs []string) (u
 			diff = diff[:6]
 		}
 		r.Violation("receiver-vs-sent:"+firstField(diff[0]), fmt.Sprintf("what was parsed is not what was sent (%d differences): %s; %s", n, strings.Join(diff, "; "), where), replay)
-	}
-	for _, k := range sortedKeys(got.Series) {
-		if ts := got.Series[k].Timestamp; ts < t0 || ts > t1 {
-			r.Violation("receiver-timestamp-outside-receive-window", fmt.Sprintf("series %q has timestamp %d, everything was received in [%d, %d]; %s", k, ts, t0, t1, where), replay)
-			break
-		}
 	}
 	gotEv := map[string]int{}
 	var evDiff []string
